@@ -51,6 +51,8 @@ impl<S: TagHintSink> StateMachineActions for TagScanner<S> {
         self.is_in_end_tag = false;
 
         if let Some(unhandled_feedback) = unhandled_feedback {
+            #[cfg(feature = "_verif_hooks")]
+            crate::verif::hit(4);
             return self.change_parser_directive(
                 tag_start,
                 ParserDirective::Lex,
@@ -61,6 +63,8 @@ impl<S: TagHintSink> StateMachineActions for TagScanner<S> {
         match self.emit_tag_hint(context, input, is_in_end_tag)? {
             ParserDirective::WherePossibleScanForTagsOnly => Ok(()),
             ParserDirective::Lex => {
+                #[cfg(feature = "_verif_hooks")]
+                crate::verif::hit(3);
                 let feedback_directive = self.take_feedback_directive();
 
                 self.change_parser_directive(tag_start, ParserDirective::Lex, feedback_directive)
